@@ -1403,3 +1403,22 @@ Example C05_map_sample_insert_into_empty_grows :
     (64 <= lenN (ct_states t))%N.
 Proof. exact sg_sample. Qed.
 Print Assumptions C05_map_sample_insert_into_empty_grows.
+
+(* the size side conditions from ONE bound (theories/StoredDbOpsAlias9.v): both alias tables have fewer than 2^56 slots
+   (so_cap_bound); then len + 1 < 2^64 follows from PInv and the grown vectors fit.  What is left to assume: PInv of the two
+   stored tables, the alias is new, the id has no alias, the alias is a valid String element (valid UTF-8, 8 + length < 2^64),
+   the id an i64 *)
+From Agdb Require Import StoredDbOpsAlias9.
+Theorem C05_db_insert_new_alias_bounded_preserves_stored_db_partial :
+  forall (hs : bytes -> N) (hi : Z -> N) (fl : bool) rm1 rm2 root d w h a id alias sp,
+    stored_db_w (hp sp) root d w -> so_handles h w -> so_alias_handles a w -> so_alias_tables_ok hs hi 64 w ->
+    imap_value (aliases d) alias = None -> imap_key (aliases d) id = None ->
+    (lenN (ct_states (mw_t (sw_a1 w))) < so_cap_bound)%N -> (lenN (ct_states (mw_t (sw_a2 w))) < so_cap_bound)%N ->
+    el_valid law_string alias -> el_valid law_i64 id ->
+    cwp fl (so_alias_insert_new hs hi (so_alias_code hs hi rm1 rm2) a id alias) sp
+        (fun r sp' => exists a' w', r = CrOk a' /\ stored_db_w (hp sp') root (insert_new_alias d id alias) w' /\
+                        so_handles h w' /\ so_alias_handles a' w' /\ so_alias_tables_ok hs hi 64 w' /\
+                        (exists m1 m2, w' = sd_with_a2 (sd_with_a1 w m1) m2) /\
+                        sdepth sp' = sdepth sp /\ frame (hp sp) (hp sp') (sd_foot root w) (sd_foot root w')).
+Proof. exact so_alias_insert_new_stored_caps. Qed.
+Print Assumptions C05_db_insert_new_alias_bounded_preserves_stored_db_partial.
